@@ -53,6 +53,11 @@ def kcv(ref, ktype, value):
     if ktype in (C.CKK_DES2, C.CKK_DES3):
         v = value + value[:8] if len(value) == 16 else value
         return ref.out("BLOCK", alg="TripleDES", key=v, **{"in": bytes(8)})[:3]
+    if ktype == C.CKK_GENERIC_SECRET:
+        # PKCS#11 v2.40, generic secret key objects: the first three bytes of the SHA-1 hash of the object's CKA_VALUE (i.e. of the value as stored,
+        # after it was cut to the requested length)
+        import hashlib
+        return hashlib.sha1(value).digest()[:3]
     return None
 
 
